@@ -137,6 +137,11 @@ func catalogue() []edit {
 	add("non-type-symbol-as-type", "service", "service ZSV {}\nstruct ZT { 1: ZSV a }")
 	add("non-type-symbol-as-type", "included-const", "struct ZT { 1: {P}CC a }")
 	add("non-type-symbol-as-type", "enum-value", "struct ZT { 1: {P}CE.A a }")
+	add("non-type-symbol-as-type", "included-service", "struct ZT { 1: {P}CBase a }")
+	add("non-type-symbol-as-type", "included-service-in-container", "struct ZT { 1: list<{P}CBase> a }")
+	add("non-type-symbol-as-type", "included-service-as-argument", "service ZSV { void f(1: {P}CBase a) }")
+	add("non-type-symbol-as-type", "included-service-as-typedef-target", "typedef {P}CBase ZT")
+	add("non-type-symbol-as-type", "service-in-container", "service ZSV {}\nstruct ZT { 1: map<string, ZSV> a }")
 	for n := 1; n <= 4; n++ {
 		var sb strings.Builder
 		for i := 0; i < n; i++ {
